@@ -27,4 +27,77 @@ example : (⟨none, true, "*"⟩ : Access).canGet = none := by decide
 example : (⟨some "system.timeout", false, ""⟩ : Access).canGet = some "system.timeout" := by decide
 example : storeVerdict ⟨some "system.timeout", false, ""⟩ = false := by decide
 
+/-- **A remembered verdict is the last one stored, and no trigger came after it.** For every
+    history of access answers and invalidating triggers (token event on a connection that had a
+    token, reaccess event, matching system reset — `handleReaccess` in each case), most recent
+    first: the verdict a subscription remembers (`verdictAfter`, a fold of the `verdictStep` the
+    model's connection actor applies) is `a` iff `a` was stored (an actual result or
+    `system.accessDenied`), every later answer was one that is not stored (timeout, other errors),
+    and **no trigger occurred since**. So data or a call served from the remembered verdict is
+    served under an answer that is still valid (C04, C05), and after a trigger the next request
+    asks the service again (C06). -/
+theorem remembered_verdict_iff (h : List VEv) (a : Access) :
+    verdictAfter h = some a ↔
+      ∃ newer older, h = newer ++ VEv.answer a :: older ∧ storeVerdict a = true ∧
+        ∀ e ∈ newer, ∃ b, e = VEv.answer b ∧ storeVerdict b = false := by
+  induction h with
+  | nil =>
+    constructor
+    · intro hh; simp [verdictAfter] at hh
+    · rintro ⟨newer, older, he, _⟩
+      cases newer <;> simp at he
+  | cons e rest ih =>
+    cases e with
+    | trigger =>
+      constructor
+      · intro hh; simp [verdictAfter, verdictStep] at hh
+      · rintro ⟨newer, older, he, hs, hn⟩
+        cases newer with
+        | nil => simp at he
+        | cons x xs =>
+          simp only [List.cons_append, List.cons.injEq] at he
+          obtain ⟨b, hb, _⟩ := hn x (by simp)
+          rw [← he.1] at hb; cases hb
+    | answer b =>
+      by_cases hsb : storeVerdict b = true
+      · constructor
+        · intro hh
+          simp only [verdictAfter, verdictStep, hsb, if_true, Option.some.injEq] at hh
+          subst hh
+          exact ⟨[], rest, rfl, hsb, fun _ h => by cases h⟩
+        · rintro ⟨newer, older, he, hs, hn⟩
+          cases newer with
+          | nil =>
+            simp only [List.nil_append, List.cons.injEq, VEv.answer.injEq] at he
+            obtain ⟨rfl, _⟩ := he
+            simp only [verdictAfter, verdictStep, hsb, if_true]
+          | cons x xs =>
+            simp only [List.cons_append, List.cons.injEq] at he
+            obtain ⟨c, hc, hcs⟩ := hn x (by simp)
+            rw [← he.1] at hc
+            cases hc
+            rw [hsb] at hcs; cases hcs
+      · have hsb' : storeVerdict b = false := by simpa using hsb
+        constructor
+        · intro hh
+          simp only [verdictAfter, verdictStep, hsb', Bool.false_eq_true, if_false] at hh
+          obtain ⟨newer, older, he, hs, hn⟩ := ih.mp hh
+          refine ⟨VEv.answer b :: newer, older, by rw [he]; rfl, hs, ?_⟩
+          intro e hm
+          rcases List.mem_cons.mp hm with rfl | hm'
+          · exact ⟨b, rfl, hsb'⟩
+          · exact hn e hm'
+        · rintro ⟨newer, older, he, hs, hn⟩
+          cases newer with
+          | nil =>
+            simp only [List.nil_append, List.cons.injEq, VEv.answer.injEq] at he
+            rw [he.1] at hsb'; rw [hsb'] at hs; cases hs
+          | cons x xs =>
+            simp only [List.cons_append, List.cons.injEq] at he
+            simp only [verdictAfter, verdictStep, hsb', Bool.false_eq_true, if_false]
+            exact ih.mpr ⟨xs, older, he.2, hs, fun e hm => hn e (List.mem_cons_of_mem _ hm)⟩
+
+/-- After a trigger nothing is remembered, whatever came before. -/
+theorem trigger_forgets (h : List VEv) : verdictAfter (VEv.trigger :: h) = none := rfl
+
 end Resgate.C04
